@@ -11,9 +11,11 @@ from ..common import Violation, drive, seed
 
 PID = 'C09'
 RULE = ('Hypothesis histories (whole history shrinks as one value): storage in {new pickle, new copy, from_list wu, '
-        'cache() over a raw mutable upstream, cache(lazy=False), diskcache()} x container (list / dict) x payload '
+        'cache() over a raw mutable upstream, cache(lazy=False), diskcache(), cache() with free memory below the '
+        'threshold} x container (list / dict) x payload '
         '(nested dict with list, dict and numpy array; tuple with mutable members; bare array; top-level object array '
-        'with mutable members; top-level 1 MiB array) x a sequence of steps: read by '
+        'with mutable members; top-level 1 MiB array; examples that cannot be pickled - a cache may refuse them, never '
+        'hand out shared objects) x a sequence of steps: read by '
         'index / negative index / numpy index / key / slice-then-index / full iteration / items() / through copy() '
         '/ through a slice view, then mutate what was returned (set, append, delete, clear, nested, in-place array '
         'arithmetic), and for pickle / wu mutate the ORIGINAL container and its examples. Oracle: after every step a '
@@ -26,7 +28,7 @@ ASSUMPTIONS = [
     'psutil.virtual_memory is patched to "plenty" so that the memory cache always caches (threshold crossings: C10)',
 ]
 N = {'quick': 500, 'thorough': 2500}
-STORAGES = ['new_pickle', 'new_copy', 'wu', 'cache', 'cache_eager', 'diskcache']
+STORAGES = ['new_pickle', 'new_copy', 'wu', 'cache', 'cache_eager', 'diskcache', 'cache_short']
 READS = ['idx', 'neg', 'np', 'key', 'slice', 'iter', 'items', 'copy', 'copyf', 'view', 'iter_mut', 'items_mut',
          'prefetch_twice']
 MUTS = ['set', 'append', 'del', 'clear', 'nested', 'array', 'array_scale']
@@ -42,6 +44,8 @@ def make_example(kind, i):
         return np.arange(4, dtype=np.int64) + 10 * i
     if kind == 'bigarray':
         return np.arange(BIG, dtype=np.float64) + i  # a top-level array of exactly 1 MiB
+    if kind == 'unpicklable':
+        return {'id': i, 'tags': [i, i + 1], 'fn': (lambda: i)}  # cannot be pickled: a cache may refuse it, not leak it
     if kind == 'objarray':
         a = np.empty(2, dtype=object)  # a top-level object array: its members are ordinary mutable containers
         a[0] = {'id': i, 'tags': ['a']}
@@ -133,7 +137,15 @@ class World:
             self.ds = lazy_dataset.from_list(self.original, immutable_warranty='wu')
         else:
             raw = core.DictDataset(self.original) if cont == 'dict' else core.ListDataset(self.original)
-            if storage == 'cache':
+            if storage == 'cache_short':
+                # free memory is below the threshold from the start: nothing is cached, every value still comes from
+                # the (pickle-protected) pipeline and is the consumer's own
+                import psutil
+                self._saved_vm = psutil.virtual_memory
+                psutil.virtual_memory = lambda: __import__('types').SimpleNamespace(total=64 * 2 ** 30,
+                                                                                     available=2 ** 20)
+                self.ds = lazy_dataset.new(self.original).map(lambda x: x).cache()
+            elif storage == 'cache':
                 self.ds = raw.cache()
             elif storage == 'cache_eager':
                 self.ds = raw.cache(lazy=False)
@@ -145,6 +157,9 @@ class World:
         self.view = None
 
     def close(self):
+        if getattr(self, '_saved_vm', None) is not None:
+            import psutil
+            psutil.virtual_memory = self._saved_vm
         self.ds = self.copy = self.copyf = self.view = None
         import gc
         gc.collect()
@@ -258,6 +273,8 @@ def check(case):
                 try:
                     got = w.read(how, pos)
                 except Exception as e:
+                    if case['payload'] == 'unpicklable' and case['storage'] == 'cache':
+                        continue  # the cache refuses what it cannot serialise (documented pickle warranty): fine
                     raise Violation(f'read-raised-{how}|{case["storage"]}',
                                     f'{w.case_desc()}\nstep {si}: read {how} at {pos} raised {type(e).__name__}: {e}')
                 in_loop = any(p == 'mutated-in-loop' for p, _ in got)
@@ -300,6 +317,8 @@ def check(case):
                 except Violation:
                     raise
                 except Exception as e:
+                    if case['payload'] == 'unpicklable' and case['storage'] == 'cache':
+                        continue
                     raise Violation(f'scan-raised|{case["storage"]}', f'{w.case_desc()}\nscan at step {si} raised '
                                                                       f'{type(e).__name__}: {e}')
         try:
@@ -307,6 +326,8 @@ def check(case):
         except Violation:
             raise
         except Exception as e:
+            if case['payload'] == 'unpicklable' and case['storage'] == 'cache':
+                return crossings
             raise Violation(f'scan-raised|{case["storage"]}', f'{w.case_desc()}\nfinal scan raised '
                                                               f'{type(e).__name__}: {e}')
         return crossings
@@ -334,7 +355,10 @@ def st_case(draw):
         else:
             steps.append(['read', draw(st.sampled_from(READS)), draw(st.integers(0, 7)),
                           draw(st.sampled_from(MUTS + [None]))])
-    return {'storage': storage, 'container': container, 'payload': draw(st.sampled_from(['dict', 'dict', 'dict', 'tuple', 'tuple', 'array', 'objarray', 'bigarray'])),
+    payloads = ['dict', 'dict', 'dict', 'tuple', 'tuple', 'array', 'objarray', 'bigarray']
+    if storage in ('cache', 'new_copy'):
+        payloads += ['unpicklable', 'unpicklable']
+    return {'storage': storage, 'container': container, 'payload': draw(st.sampled_from(payloads)),
             'n': n, 'steps': steps}
 
 
